@@ -4,6 +4,7 @@ import (
 	"fmt"
 	"go/token"
 	"go/types"
+	"math/big"
 	"strings"
 
 	"golang.org/x/tools/go/ssa"
@@ -18,7 +19,7 @@ func init() {
 			"(4) a send stores the new code, a fresh hash, the send time, sendCount+1 and resets the attempt counter, writes the entry to the cache only after the send checks passed and returns that hash; (5) the send check refuses under `now-setTime < MinInterval`, refreshes the window when it elapsed, and otherwise refuses under sendCount > MaxCount. " +
 			"NOT decided: time-dependent regimes between the always/never extremes, code length in mock mode, the SMS provider.",
 		Assumptions: []string{"the index callback follows rand.Intn's contract [0,n)"},
-		Floors:      map[string]int{"C19.key-agreement": 2, "C19.alphabet": 1, "C19.verify": 1, "C19.send-update": 1, "C19.send-check": 1},
+		Floors:      map[string]int{"C19.key-agreement": 2, "C19.alphabet": 1, "C19.verify": 1, "C19.send-update": 1, "C19.send-check": 1, "C19.mock-code": 1},
 		Run:         runC19,
 	})
 }
@@ -41,6 +42,7 @@ func runC19(c *Ctx) {
 		return strings.HasSuffix(p, "/vcode") || strings.HasSuffix(p, "/tex")
 	}
 	cfg := TraceConfig{Inline: inl}
+	c.checkMockCode(rel)
 	fld := func(t, f string) *types.Var { return c.mustField(rel, t, f) }
 	fCode, fHash, fSet, fSendCnt, fVerCnt, fCounterT := fld("vCache", "code"), fld("vCache", "hash"), fld("vCache", "setTime"), fld("vCache", "sendCount"), fld("vCache", "verifyCount"), fld("vCache", "counterTime")
 	fMaxV, fTTL, fMinI, fMaxC, fCntDur := fld("Config", "MaxVerifyCount"), fld("Config", "TTL"), fld("Config", "MinInterval"), fld("Config", "MaxCount"), fld("Config", "CounterDuration")
@@ -449,5 +451,81 @@ func runC19(c *Ctx) {
 		} else if ncall == 0 {
 			c.undecided("C19.alphabet", name, fn.Pos(), "no call of the index generator found")
 		}
+	}
+}
+
+// checkMockCode: in mock mode the code has exactly CodeLen characters — the tail of the phone when it is long
+// enough, otherwise the phone left-padded by a loop that runs CodeLen - len(phone) times. The loop bound must be
+// that (loop-invariant) difference: a bound that reads the growing string stops half way, the code is short and
+// the properly padded code no longer verifies.
+func (c *Ctx) checkMockCode(rel string) {
+	fn := c.mustFn(rel, "(*sender).genCode")
+	codeLen := c.mustField(rel, "Config", "CodeLen")
+	if fn == nil || codeLen == nil {
+		return
+	}
+	cons := "(*vcode.sender).genCode mock"
+	noInl := func(*ssa.Function, int) bool { return false }
+	traces, complete := c.Trace(fn, TraceConfig{Inline: noInl})
+	if !complete {
+		c.undecided("C19.mock-code", cons, fn.Pos(), "path budget exceeded")
+		return
+	}
+	phone := &Sym{Kind: KParam, Ref: fn.Params[1], Typ: fn.Params[1].Type()}
+	lenPhone := lf(&Sym{Kind: KOp, Name: "len", Args: []*Sym{phone}})
+	// isCodeLenMinus: form == CodeLen - len(phone) + k
+	diffOK := func(form linForm, k int64) bool {
+		d := form.add(lenPhone, 1).add(lfConst(k), -1)
+		if len(d.coef) != 1 || d.c.Sign() != 0 {
+			return false
+		}
+		for key, a := range d.coef {
+			if !strings.Contains(key, ".CodeLen") || a.Cmp(big.NewInt(1)) != 0 {
+				return false
+			}
+		}
+		return true
+	}
+	ok, loops, tails := true, 0, 0
+	for _, t := range traces {
+		for i, e := range t.Events {
+			if e.Kind != EvBranch || !e.Gen || e.Cond.Kind != KBin || e.Cond.Op != token.LSS {
+				continue
+			}
+			v := e.Cond.Args[0]
+			if v.Kind != KFresh || v.Name != "loop" {
+				continue
+			}
+			loops++
+			b := e.Cond.Args[1]
+			variant := false
+			b.walk(func(x *Sym) {
+				if x.Kind == KFresh && x.Name == "loop" {
+					variant = true
+				}
+			})
+			init, isC := int64(-1), false
+			if len(v.Args) == 2 {
+				init, isC = v.Args[0].intConst()
+			}
+			if (variant || !isC || !diffOK(lf(b), init)) && ok {
+				ok = false
+				c.violated("C19.mock-code", cons, e.Pos, "the padding loop does not run exactly CodeLen - len(phone) times (its bound is "+c.short(b.Key())+"): the mock code comes out shorter or longer than CodeLen, so the code a tester derives from the phone number does not verify", c.witness(t, i)...)
+			}
+		}
+		if t.End == EndReturn && len(t.Ret) == 1 {
+			if r := t.Ret[0]; r.Kind == KOp && r.Name == "slice" && r.Args[0].Key() == phone.Key() {
+				tails++
+				// phone[len(phone)-CodeLen:]
+				low := lf(r.Args[1]).scale(big.NewInt(-1))
+				if !(r.Args[2].Kind == KConst && r.Args[2].Name == "none" && diffOK(low, 0)) && ok {
+					ok = false
+					c.violated("C19.mock-code", cons, fn.Pos(), "for a long phone number the mock code is not its last CodeLen characters: "+c.short(r.Key()), c.witness(t, len(t.Events)-1)...)
+				}
+			}
+		}
+	}
+	if ok {
+		c.check(loops > 0 && tails > 0, "C19.mock-code", cons, fn.Pos(), "tail of CodeLen characters, or CodeLen-len(phone) padding iterations", "the mock branch of genCode is not recognised (neither the tail slice nor the padding loop was found)")
 	}
 }
